@@ -84,7 +84,12 @@ pub fn world_child(args: &Args) {
     let w = World::from_text(v["decls"].as_str().unwrap_or(""), strs("classes"), strs("aliases"));
     let mut out = std::fs::File::create(&args.out).expect("out");
     writeln!(out, "env {}", w.env.as_ref().map(|e| hex(e)).unwrap_or_else(|| "none".into())).ok();
+    let from = v["from"].as_u64().unwrap_or(0) as usize;
+    out.flush().ok();
     for (i, (s, c)) in world_pairs(&w).iter().enumerate() {
+        if i < from {
+            continue;
+        }
         writeln!(out, "start {i}").ok();
         out.flush().ok();
         let t0 = Instant::now();
@@ -136,13 +141,14 @@ fn alias_cycle(decls: &str) -> bool {
     false
 }
 
-/// run the pairs of one world in a child; `None` for a pair = no answer within the budget
-fn run_world(w: &World, budget: Duration, tag: &str) -> (Option<String>, Vec<Option<(String, u128)>>) {
+/// one child run over the pairs `from..` of a world; returns (env, results, index that was in flight
+/// when the budget ran out)
+fn run_world_once(w: &World, from: usize, budget: Duration, tag: &str) -> (Option<String>, Vec<Option<(String, u128)>>, Option<usize>) {
     let n = world_pairs(w).len();
     let dir = "/verif/.work";
     let wpath = format!("{dir}/C12_world_{tag}.json");
     let opath = format!("{dir}/C12_worldout_{tag}.txt");
-    std::fs::write(&wpath, serde_json::to_string(&json!({"decls": w.decl_text, "classes": w.classes, "aliases": w.aliases})).unwrap_or_default()).expect("write world");
+    std::fs::write(&wpath, serde_json::to_string(&json!({"decls": w.decl_text, "classes": w.classes, "aliases": w.aliases, "from": from})).unwrap_or_default()).expect("write world");
     let _ = std::fs::remove_file(&opath);
     let exe = std::env::current_exe().expect("exe");
     let mut child = std::process::Command::new(exe)
@@ -151,20 +157,26 @@ fn run_world(w: &World, budget: Duration, tag: &str) -> (Option<String>, Vec<Opt
         .stderr(std::process::Stdio::null())
         .spawn()
         .expect("spawn child");
+    // the clock of a pair starts when the child reports progress; starting the process and indexing the
+    // declarations gets a separate, generous allowance (the machine may be heavily loaded)
+    let setup_allowance = Duration::from_secs(120);
     let mut last = (0usize, Instant::now());
+    let mut killed = false;
     loop {
         match child.try_wait() {
             Ok(Some(_)) => break,
             Ok(None) => {}
             Err(_) => break,
         }
-        let done = std::fs::read_to_string(&opath).map(|s| s.lines().filter(|l| l.starts_with("done")).count()).unwrap_or(0);
-        if done > last.0 {
-            last = (done, Instant::now());
+        let lines = std::fs::read_to_string(&opath).map(|s| s.lines().count()).unwrap_or(0);
+        if lines > last.0 {
+            last = (lines, Instant::now());
         }
-        if last.1.elapsed() > budget {
+        let allowed = if last.0 == 0 { setup_allowance } else { budget };
+        if last.1.elapsed() > allowed {
             let _ = child.kill();
             let _ = child.wait();
+            killed = true;
             break;
         }
         std::thread::sleep(Duration::from_millis(5));
@@ -172,14 +184,19 @@ fn run_world(w: &World, budget: Duration, tag: &str) -> (Option<String>, Vec<Opt
     let text = std::fs::read_to_string(&opath).unwrap_or_default();
     let mut env = None;
     let mut res: Vec<Option<(String, u128)>> = (0..n).map(|_| None).collect();
+    let mut in_flight = None;
     for line in text.lines() {
         let ws: Vec<&str> = line.split(' ').collect();
         match ws.as_slice() {
             ["env", e] if *e != "none" => env = vh_common::unhex(e),
+            ["start", i] => in_flight = i.parse::<usize>().ok(),
             ["done", i, r, us] => {
                 if let (Ok(i), Some(r)) = (i.parse::<usize>(), vh_common::unhex(r)) {
                     if i < n {
                         res[i] = Some((r, us.parse().unwrap_or(0)));
+                    }
+                    if in_flight == Some(i) {
+                        in_flight = None;
                     }
                 }
             }
@@ -188,6 +205,54 @@ fn run_world(w: &World, budget: Duration, tag: &str) -> (Option<String>, Vec<Opt
     }
     let _ = std::fs::remove_file(&wpath);
     let _ = std::fs::remove_file(&opath);
+    (env, res, if killed { in_flight } else { None })
+}
+
+/// run the pairs of one world in child processes; `None` for a pair = no answer within the budget,
+/// confirmed by a second run of that pair alone with four times the budget
+fn run_world(w: &World, budget: Duration, tag: &str) -> (Option<String>, Vec<Option<(String, u128)>>) {
+    let n = world_pairs(w).len();
+    let mut res: Vec<Option<(String, u128)>> = (0..n).map(|_| None).collect();
+    let mut env = None;
+    let mut from = 0usize;
+    let mut rounds = 0;
+    while from < n && rounds < 40 {
+        rounds += 1;
+        let (e, r, stuck) = run_world_once(w, from, budget, tag);
+        if env.is_none() {
+            env = e;
+        }
+        let mut progressed = false;
+        for (i, x) in r.into_iter().enumerate() {
+            if x.is_some() && res[i].is_none() {
+                res[i] = x;
+                progressed = true;
+            }
+        }
+        match stuck {
+            Some(i) => {
+                // confirm: the pair alone, four times the budget
+                let (_, r2, stuck2) = run_world_once(w, i, budget * 4, tag);
+                if stuck2 == Some(i) || r2[i].is_none() {
+                    from = i + 1; // genuinely no answer: leave `None`, go on with the next pair
+                } else {
+                    for (k, x) in r2.into_iter().enumerate() {
+                        if x.is_some() && res[k].is_none() {
+                            res[k] = x;
+                        }
+                    }
+                    from = res.iter().position(|x| x.is_none()).unwrap_or(n);
+                }
+            }
+            None => {
+                let next = res.iter().position(|x| x.is_none()).unwrap_or(n);
+                if next == from && !progressed {
+                    break; // the child ended without covering the pair: give up on the rest
+                }
+                from = next;
+            }
+        }
+    }
     (env, res)
 }
 
@@ -349,92 +414,125 @@ struct Outcome {
     tokens: usize,
 }
 
+/// one child over `items`; returns per-item outcomes (None = not reached) and the index in flight when
+/// the child died or was killed
+fn run_child_once(items: &[(String, usize)], budget: Duration, tag: &str) -> (Vec<Option<Outcome>>, Option<usize>, bool) {
+    let dir = "/verif/.work";
+    let batch: Vec<Value> = items.iter().map(|(t, c)| json!({"text": t, "config": c})).collect();
+    let bpath = format!("{dir}/C12_batch_{tag}.json");
+    let opath = format!("{dir}/C12_progress_{tag}.txt");
+    std::fs::write(&bpath, serde_json::to_string(&batch).unwrap_or_default()).expect("write batch");
+    let _ = std::fs::remove_file(&opath);
+    let exe = std::env::current_exe().expect("exe");
+    let mut child = std::process::Command::new(exe)
+        .args(["C12-child", "--replay", &bpath, "--out", &opath])
+        .stdout(std::process::Stdio::null())
+        .stderr(std::process::Stdio::null())
+        .spawn()
+        .expect("spawn child");
+    let setup_allowance = Duration::from_secs(120);
+    let mut last = (0usize, Instant::now());
+    let mut killed = false;
+    loop {
+        match child.try_wait() {
+            Ok(Some(_)) => break,
+            Ok(None) => {}
+            Err(_) => break,
+        }
+        // any new progress line (start or done) resets the clock
+        let lines = std::fs::read_to_string(&opath).map(|s| s.lines().count()).unwrap_or(0);
+        if lines > last.0 {
+            last = (lines, Instant::now());
+        }
+        let allowed = if last.0 == 0 { setup_allowance } else { budget };
+        if last.1.elapsed() > allowed {
+            let _ = child.kill();
+            let _ = child.wait();
+            killed = true;
+            break;
+        }
+        std::thread::sleep(Duration::from_millis(20));
+    }
+    let prog = std::fs::read_to_string(&opath).unwrap_or_default();
+    let mut results: Vec<Option<Outcome>> = (0..items.len()).map(|_| None).collect();
+    let mut in_flight: Option<usize> = None;
+    for line in prog.lines() {
+        let ws: Vec<&str> = line.split(' ').collect();
+        match ws.as_slice() {
+            ["start", i] => in_flight = i.parse().ok(),
+            ["done", i, "ok", n, _ms] => {
+                if let Ok(i) = i.parse::<usize>() {
+                    if i < results.len() {
+                        results[i] = Some(Outcome { kind: "ok".into(), detail: String::new(), tokens: n.parse().unwrap_or(0) });
+                    }
+                    if in_flight == Some(i) {
+                        in_flight = None;
+                    }
+                }
+            }
+            ["done", i, "panic", _ms, m] => {
+                if let Ok(i) = i.parse::<usize>() {
+                    if i < results.len() {
+                        results[i] = Some(Outcome { kind: "panic".into(), detail: vh_common::unhex(m).unwrap_or_default(), tokens: 0 });
+                    }
+                    if in_flight == Some(i) {
+                        in_flight = None;
+                    }
+                }
+            }
+            _ => {}
+        }
+    }
+    let _ = std::fs::remove_file(&bpath);
+    let _ = std::fs::remove_file(&opath);
+    (results, in_flight, killed)
+}
+
 fn run_batch(items: &[(String, usize)], budget: Duration, tag: &str) -> Vec<Outcome> {
     let mut results: Vec<Option<Outcome>> = (0..items.len()).map(|_| None).collect();
     let mut start = 0usize;
-    let dir = "/verif/.work";
-    while start < items.len() {
-        let batch: Vec<Value> = items[start..].iter().map(|(t, c)| json!({"text": t, "config": c})).collect();
-        let bpath = format!("{dir}/C12_batch_{tag}.json");
-        let opath = format!("{dir}/C12_progress_{tag}.txt");
-        std::fs::write(&bpath, serde_json::to_string(&batch).unwrap_or_default()).expect("write batch");
-        let _ = std::fs::remove_file(&opath);
-        let exe = std::env::current_exe().expect("exe");
-        let mut child = std::process::Command::new(exe)
-            .args(["C12-child", "--replay", &bpath, "--out", &opath])
-            .stdout(std::process::Stdio::null())
-            .stderr(std::process::Stdio::null())
-            .spawn()
-            .expect("spawn child");
-        let t0 = Instant::now();
-        let total_budget = budget * (batch.len() as u32) + Duration::from_secs(20);
-        let mut last_progress = (0usize, Instant::now());
-        let mut timed_out = false;
-        loop {
-            match child.try_wait() {
-                Ok(Some(_)) => break,
-                Ok(None) => {}
-                Err(_) => break,
-            }
-            // per-program budget: the number of finished programs must keep growing
-            let done = std::fs::read_to_string(&opath).map(|s| s.lines().filter(|l| l.starts_with("done")).count()).unwrap_or(0);
-            if done > last_progress.0 {
-                last_progress = (done, Instant::now());
-            }
-            if last_progress.1.elapsed() > budget || t0.elapsed() > total_budget {
-                let _ = child.kill();
-                let _ = child.wait();
-                timed_out = true;
-                break;
-            }
-            std::thread::sleep(Duration::from_millis(20));
-        }
-        let prog = std::fs::read_to_string(&opath).unwrap_or_default();
-        let mut last_started: Option<usize> = None;
-        let mut finished: HashSet<usize> = HashSet::new();
-        for line in prog.lines() {
-            let ws: Vec<&str> = line.split(' ').collect();
-            match ws.as_slice() {
-                ["start", i] => last_started = i.parse().ok(),
-                ["done", i, "ok", n, _ms] => {
-                    if let Ok(i) = i.parse::<usize>() {
-                        finished.insert(i);
-                        results[start + i] = Some(Outcome { kind: "ok".into(), detail: String::new(), tokens: n.parse().unwrap_or(0) });
-                    }
-                }
-                ["done", i, "panic", _ms, m] => {
-                    if let Ok(i) = i.parse::<usize>() {
-                        finished.insert(i);
-                        results[start + i] = Some(Outcome { kind: "panic".into(), detail: vh_common::unhex(m).unwrap_or_default(), tokens: 0 });
-                    }
-                }
-                _ => {}
+    let mut rounds = 0usize;
+    while start < items.len() && rounds < 200 {
+        rounds += 1;
+        let (rs, in_flight, killed) = run_child_once(&items[start..], budget, tag);
+        let mut progressed = false;
+        for (k, r) in rs.into_iter().enumerate() {
+            if r.is_some() {
+                results[start + k] = r;
+                progressed = true;
             }
         }
-        match last_started {
-            Some(i) if !finished.contains(&i) => {
-                // the child died or hung inside program i
-                results[start + i] = Some(Outcome {
-                    kind: if timed_out { "timeout".into() } else { "abort".into() },
-                    detail: if timed_out { format!("no result within {:?}", budget) } else { "child process died (stack overflow / abort)".into() },
-                    tokens: 0,
-                });
+        match in_flight {
+            Some(i) => {
+                // the child died or hung inside program `start + i`: confirm with that program alone and
+                // four times the budget (a loaded machine must not be reported as a hang)
+                let (rs2, fl2, killed2) = run_child_once(&items[start + i..start + i + 1], budget * 4, tag);
+                match rs2.into_iter().next().flatten() {
+                    Some(o) if fl2.is_none() => results[start + i] = Some(o),
+                    _ => {
+                        results[start + i] = Some(Outcome {
+                            kind: if killed || killed2 { "timeout".into() } else { "abort".into() },
+                            detail: if killed || killed2 { format!("no result within {:?} (confirmed alone with {:?})", budget, budget * 4) } else { "child process died (stack overflow / abort), confirmed alone".into() },
+                            tokens: 0,
+                        });
+                    }
+                }
                 start += i + 1;
             }
-            _ => {
-                if finished.len() < batch.len() && timed_out {
-                    // nothing started: give up on the rest of the batch
-                    for r in results.iter_mut().skip(start) {
-                        if r.is_none() {
-                            *r = Some(Outcome { kind: "timeout".into(), detail: "child made no progress".into(), tokens: 0 });
-                        }
-                    }
+            None => {
+                // between programs: continue after the last finished one
+                let next = results.iter().position(|r| r.is_none()).unwrap_or(items.len());
+                if next == start && !progressed {
+                    break;
                 }
-                start = items.len();
+                start = next;
             }
         }
     }
-    results.into_iter().map(|r| r.unwrap_or(Outcome { kind: "abort".into(), detail: "no result".into(), tokens: 0 })).collect()
+    results
+        .into_iter()
+        .map(|r| r.unwrap_or(Outcome { kind: "not-run".into(), detail: "the child processes made no progress (machine overloaded?)".into(), tokens: 0 }))
+        .collect()
 }
 
 /// predicate of the (fixed) finding: an index expression whose bracket is followed by a doc comment
@@ -551,7 +649,9 @@ pub fn run(args: &Args, report: &mut Report) {
             if text.contains("---@") && seen_prog.insert(text.clone()) {
                 report.distinct_nontrivial += 1;
             }
-            if o.kind != "ok" {
+            if o.kind == "not-run" {
+                report.notes.push("some programs were not run: child processes made no progress".into());
+            } else if o.kind != "ok" {
                 report.oracle_failure(json!({"input": {"program": text, "config": config}, "what": format!("pipeline {}: {}", o.kind, o.detail), "class": class_of(text)}));
             } else if report.samples.len() < 5 {
                 report.sample(json!({"program": text, "config": config, "tokens": o.tokens}));
